@@ -271,6 +271,9 @@ pub fn gen(rng: &mut Rng, tier: &str, dist: &mut Dist) -> Vec<String> {
     cmds
 }
 
+/// dictionary sizes above the documented encoder maximum are rejected before anything is allocated
+const ENC_DICT_MAX_GATE: u32 = 768 << 20;
+
 pub fn exec(a: &[&str]) -> (String, String) {
     if a[0] != "opt" || a.len() < 15 {
         return ("NOCMD".into(), "FAIL unknown command".into());
@@ -295,6 +298,12 @@ pub fn exec(a: &[&str]) -> (String, String) {
         depth,
     );
     o.preset_dict = preset.clone();
+    // An encoder for a dictionary of hundreds of MiB touches several GiB of tables: sixteen of them at
+    // once exceed the machine's memory and the page-fault / reclaim work then counts as the case's
+    // CPU time.  Such cases run one at a time (waiting costs no CPU time, the verdict stays
+    // independent of what else is running).
+    static HUGE: std::sync::Mutex<()> = std::sync::Mutex::new(());
+    let _huge = if (128u32 << 20..=ENC_DICT_MAX_GATE).contains(&dict) { Some(HUGE.lock().unwrap_or_else(|e| e.into_inner())) } else { None };
     let cap = data.len() + 1024;
     let res = match kind {
         1 => run3(|| LZMAWriter::new_use_header(Vec::new(), &o, None), |w| w.write_all(&data), |w| w.finish()),
